@@ -268,8 +268,12 @@ impl MCOptimiser {
             // Taking shinking the cell as an example, 50% of steps will  increase the cell, so
             // we want 50% of the steps which can improve the performance to be accepted.
             // There is a limit to the usefulness though and 1e-4 has been good.
+            // The configured step size is the maximum, the ratio only ever shrinks the moves.
             if step_ratio > 1e-4 {
-                step_ratio *= self.inner_steps as f64 / (loop_rejections as f64 + 1.);
+                step_ratio = f64::min(
+                    1.,
+                    step_ratio * self.inner_steps as f64 / (loop_rejections as f64 + 1.),
+                );
             }
         }
         debug!(
